@@ -215,8 +215,11 @@ func (w *World) Login(s *Sess, user int) imapc.Result {
 
 func (w *World) stateIDs(user int) map[int64]bool {
 	out := map[int64]bool{}
-	for _, d := range w.Dump(user) {
-		out[d.StateID] = true
+	if w.Srv == nil {
+		return out
+	}
+	for _, id := range w.Srv.VerifStateIDs(w.Users[user].ID) {
+		out[id] = true
 	}
 	return out
 }
